@@ -2,7 +2,7 @@
 import ast
 
 from .. import util
-from ..interp import Interp, Path, show, strip_sites
+from ..interp import Interp, Path, show, strip_sites, subterms
 from ..report import Undecided
 
 TRIO_SLEEP = ("glob", "ext:trio.sleep")
@@ -414,6 +414,17 @@ def factory_run(chk):
             continue
         which = names[0]
         seen.add(which)
+        # the adjustment acts on the supply / demand of NOW: no wait between reading them and adjusting (a snapshot taken
+        # before the sleep is one interval old -- a grow does not cover the current request, a shrink releases children the
+        # current request still needs)
+        evs_ = o.path.events
+        i_adj = next(i for i, e in enumerate(evs_) if e[0] == "call" and e[1] is adj[0])
+        reads = [i for i, e in enumerate(evs_) if i < i_adj and ((e[0] == "bind" and e[2] in (supply, demand)) or (e[0] == "branch" and any(x in (supply, demand) for x in subterms(e[1]))))]
+        waits = [i for i, e in enumerate(evs_) if reads and reads[0] < i < i_adj and ((e[0] == "call" and e[3]) or e[0] == "await")]
+        if waits and ok:
+            chk.bad(rule, run.qual, "the cycle waits (%s) between reading supply / demand and adjusting: the adjustment acts on values that are one interval old" % show(strip_sites(evs_[waits[0]][1])), node=loop, stmt="wait-between-snapshot-and-adjust")
+            ok = False
+            continue
         want_shrink = s <= frozenset(">")
         want_grow = not (s & frozenset(">"))
         is_shrink = which == role_names.get("shrink", "") or (not role_names and "shrink" in which)
